@@ -65,7 +65,7 @@ def finalize(agg, tier):
     need += ["buf:" + k for k in P.IN_KINDS]
     need += ["place:" + p for p in P.PLACEMENTS] + ["place:inplace_term2"]
     need += ["modefam:" + m for m in MODEFAMS]
-    need += ["guard_page_buffers", "in_place_calls", "scribbled_buffers", "xof_reads", "ctor_first", "final_combined", "reseek",
+    need += ["guard_page_buffers", "in_place_calls", "scribbled_buffers", "xof_reads", "xof_copies_between_reads", "ctor_first", "final_combined", "reseek",
              "ptype:bytearray", "ptype:memoryview", "tagkind:bytearray", "tagkind:memoryview", "verify:ok", "verify:ValueError",
              "suite:exhaustive3", "suite:drizzle", "suite:empty", "suite:kinds_x_places", "suite:ptypes", "suite:random",
              "suite:bigblock", "ccm:undeclared", "wide_item_views", "peek_looks", "huge_segments"]
@@ -343,6 +343,9 @@ class Engine(object):
                 pres["aad"] = [(lo, hi, kind()) for lo, hi in P.cuts_to_segments(len(inst["aad"]), aad_cuts)]
         if o.has_reads:
             pres["reads"] = [hi - lo for lo, hi in P.cuts_to_segments(inst["outlen"], read_cuts)]
+            if rng.random() < 0.3:
+                # continue on obj.copy() before some of the reads (the classes that have copy()): still one output stream
+                pres["read_copies"] = [rng.random() < 0.5 for _ in pres["reads"]]
         if o.fam == "tuplehash":
             ni = len(inst["items"])
             pres["item_kinds"] = [kind() for _ in range(ni)]
@@ -507,7 +510,7 @@ class Engine(object):
         if scribble:
             p["scribble"] = False
         if forms:
-            for name in ("ctor_first", "final_combined", "reseek"):
+            for name in ("ctor_first", "final_combined", "reseek", "read_copies"):
                 p.pop(name, None)
         return p
 
